@@ -10,7 +10,7 @@ META = {
     "text": "Coq theorems over all interleavings of any number of goroutines running any programs: (memory) every "
             "memKV method is a sequence of micro-steps under the lock the source takes, and the reduction theorem "
             "for sync.RWMutex (Lib/Sched.v) shows results and map equal the sequential run of the returned calls in "
-            "return order; (sqlite/psql) statements are atomic, mutate is a transaction under SQLite's lock ladder "
+            "return order; (sqlite) statements are atomic, mutate is a transaction under SQLite's lock ladder "
             "with arbitrary SQLITE_BUSY refusals, and results and committed database equal the sequential run of "
             "the calls that did not report BUSY, in commit order; corollaries: n successful increments add n, Adds "
             "of one key succeed at most once, Emplace keeps the first value, every Append lands exactly once. "
@@ -21,8 +21,10 @@ META = {
             "SQLite's locking (RESERVED exclusive among writers, commit only when no other connection holds SHARED, "
             "a refused request = SQLITE_BUSY without effect), database/sql connection pooling; the schedules of the "
             "recorded runs are whatever the Go scheduler produced plus one forced schedule (reader inside its walk "
-            "while a Mutate commits). PostgreSQL cannot run here (statement table only). Harness also built with "
-            "-race. No axioms.",
+            "while a Mutate commits). Nothing is claimed for psqlKV under concurrency: PostgreSQL cannot run here and "
+            "its isolation levels are not modelled (psqlKV.mutate is SELECT then UPDATE without FOR UPDATE, which under "
+            "READ COMMITTED would lose updates - suspected, not reproducible here). Harness also built with -race. "
+            "No axioms.",
     "technique": "Coq proof (invariant over an interleaving semantics, forward simulation with return-order "
                  "linearization) + go/ast extraction of lock/transaction skeletons + recorded histories decided by "
                  "vm_compute (linearizability search, accounting)",
